@@ -207,3 +207,109 @@ func AllocBytes() int64 {
 }
 
 var allocBase uint64
+
+// ---- cooperative threads (C18): exactly one thread runs at a time; control changes hands only at
+// Yield, where the next runnable thread is a decision ("sched"). Under the executor Go, Yield and
+// WaitAll are INTERCEPTED; natively they are implemented with goroutines passing a baton, so a
+// schedule found by the executor replays deterministically.
+
+type coThread struct {
+	resume chan struct{}
+	done   bool
+}
+
+var (
+	coThreads []*coThread
+	coCur     *coThread
+	coMain    = &coThread{resume: make(chan struct{})}
+	coPanic   interface{}
+)
+
+func coReset() {
+	coThreads, coCur, coPanic = nil, nil, nil
+	coMain = &coThread{resume: make(chan struct{})}
+}
+
+// Go registers f as a new thread; it starts running when a Yield or WaitAll schedules it.
+func Go(f func()) {
+	if coCur == nil {
+		coCur = coMain
+	}
+	t := &coThread{resume: make(chan struct{})}
+	coThreads = append(coThreads, t)
+	go func() {
+		<-t.resume
+		defer func() {
+			if r := recover(); r != nil && coPanic == nil {
+				coPanic = r
+			}
+			t.done = true
+			coSwitch(t)
+		}()
+		f()
+	}()
+}
+
+func coRunnable(except *coThread) []*coThread {
+	var rs []*coThread
+	for _, t := range coThreads {
+		if !t.done && t != except {
+			rs = append(rs, t)
+		}
+	}
+	return rs
+}
+
+// coSwitch: the running thread `from` gives up control (or has finished).
+func coSwitch(from *coThread) {
+	cands := coRunnable(nil)
+	if from != coMain && from.done {
+		// a finished thread hands over to another runnable thread, or back to main
+	}
+	var next *coThread
+	if coPanic != nil || len(cands) == 0 {
+		next = coMain
+	} else {
+		// the candidates: every unfinished thread (including the current one, if unfinished), in creation order
+		next = cands[Choose("sched", len(cands))]
+	}
+	if next == from {
+		return
+	}
+	coCur = next
+	next.resume <- struct{}{}
+	if from.done && from != coMain {
+		return // goroutine ends
+	}
+	<-from.resume
+}
+
+// Yield is a scheduling point.
+func Yield() {
+	if coCur == nil || len(coThreads) == 0 {
+		return
+	}
+	cur := coCur
+	if cur == coMain {
+		return // main only schedules in WaitAll
+	}
+	coSwitch(cur)
+	if coPanic != nil && cur != coMain {
+		// another thread failed: unwind this one quietly
+	}
+}
+
+// WaitAll runs the registered threads to completion (main does not interleave with them).
+func WaitAll() {
+	if coCur == nil {
+		coCur = coMain
+	}
+	for coPanic == nil && len(coRunnable(nil)) > 0 {
+		coSwitch(coMain)
+	}
+	p := coPanic
+	coReset()
+	if p != nil {
+		panic(p)
+	}
+}
